@@ -308,7 +308,9 @@ func (p *envParser) parseMarkerExpr() (marker, error) {
 	// its purpose to force string comparison, see PEP 440 for details
 	// (https://www.python.org/dev/peps/pep-0440/).
 	// "in" and "not in" are substring tests whatever the operands look like.
-	if l.version != nil && r.version != nil && o != markerOpEqualEqualEqual && o != markerOpIn && o != markerOpNotIn {
+	// A wildcard operand only forms a version specifier with == and !=.
+	wildcardOK := !r.version.IsWildcard() || o == markerOpEqualEqual || o == markerOpNotEqual
+	if l.version != nil && r.version != nil && wildcardOK && o != markerOpEqualEqualEqual && o != markerOpIn && o != markerOpNotIn {
 		c, err := semver.PyPI.ParseConstraint(o.String() + r.value)
 		if err != nil {
 			return nil, err
@@ -430,6 +432,20 @@ func (me markerExpr) Eval(extras map[string]bool) bool {
 	// Try a version comparison first.
 	if me.constraint != nil {
 		return me.constraint.MatchVersion(me.left.version)
+	}
+	// pip's packaging turns the operator and the right operand into a
+	// version specifier whenever that parses, and a left operand that is
+	// not a version (sys_platform > "3.9") never satisfies an ordering.
+	if me.right.version != nil && me.left.version == nil {
+		switch me.op {
+		case markerOpNotEqual, markerOpEqualEqual:
+			return false
+		case markerOpLessEqual, markerOpLess, markerOpGreaterEqual, markerOpGreater:
+			// A wildcard only forms a specifier with == and !=.
+			if !me.right.version.IsWildcard() {
+				return false
+			}
+		}
 	}
 	// Fall back to Python string behaviour where possible.
 	switch me.op {
